@@ -133,9 +133,12 @@ type obs struct {
 }
 
 type scen struct {
-	twoSigns bool
-	outc     map[string]int64
-	hist     map[string]bool
+	// failingReload: the signer is configured with key_id "k1" and the file is switched to a store that parses
+	// but does not contain that key, so the reload must be rejected as a whole
+	failingReload bool
+	twoSigns      bool
+	outc          map[string]int64
+	hist          map[string]bool
 }
 
 func (sc *scen) Setup(s *vsched.Sched) (func(*vsched.Outcome) (string, string), func() string) {
@@ -144,8 +147,12 @@ func (sc *scen) Setup(s *vsched.Sched) (func(*vsched.Outcome) (string, string), 
 
 	must(os.WriteFile(path, a.pem, 0o600))
 
-	signer, err := finalizers.VerifC16NewJWTSigner(&finalizers.SignerConfig{KeyStore: finalizers.KeyStore{Path: path}},
-		&watcher.NoopWatcher{})
+	sconf := &finalizers.SignerConfig{KeyStore: finalizers.KeyStore{Path: path}}
+	if sc.failingReload {
+		sconf.KeyID = "k1"
+	}
+
+	signer, err := finalizers.VerifC16NewJWTSigner(sconf, &watcher.NoopWatcher{})
 	must(err)
 
 	reg := keyholder.VerifNewRegistry()
@@ -238,6 +245,16 @@ func (sc *scen) Setup(s *vsched.Sched) (func(*vsched.Outcome) (string, string), 
 					return "schedules/" + sig, sum
 				}
 
+				if sc.failingReload {
+					if which != "K1" {
+						return "schedules/rejected-reload-changed-the-signing-key", o.token
+					}
+
+					fmt.Fprintf(&key, "sign=%s ", which)
+
+					continue
+				}
+
 				if o.call > reload.ret && which != "K2" {
 					return "schedules/token-signed-with-superseded-key-after-reload-returned", o.token
 				}
@@ -255,6 +272,16 @@ func (sc *scen) Setup(s *vsched.Sched) (func(*vsched.Outcome) (string, string), 
 				which, sig := classifyJWKS(o.body, a, b)
 				if sig != "" {
 					return "schedules/" + sig, o.body
+				}
+
+				if sc.failingReload {
+					if which != "K1" {
+						return "schedules/rejected-reload-changed-the-published-key-set", o.body
+					}
+
+					fmt.Fprintf(&key, "jwks=%s ", which)
+
+					continue
 				}
 
 				if o.call > reload.ret && which != "K2" {
@@ -358,11 +385,12 @@ func classifyJWKS(body string, a, b *keySet) (which, sig string) {
 }
 
 type replayCase struct {
-	Part     string    `json:"part"`
-	TwoSigns bool      `json:"two_signs,omitempty"`
-	Choices  []int     `json:"choices,omitempty"`
-	Schedule []string  `json:"schedule,omitempty"`
-	Conf     *confCase `json:"conf,omitempty"`
+	Part          string    `json:"part"`
+	TwoSigns      bool      `json:"two_signs,omitempty"`
+	FailingReload bool      `json:"failing_reload,omitempty"`
+	Choices       []int     `json:"choices,omitempty"`
+	Schedule      []string  `json:"schedule,omitempty"`
+	Conf          *confCase `json:"conf,omitempty"`
 }
 
 func runSchedules(c *engine.Ctx) {
@@ -371,13 +399,15 @@ func runSchedules(c *engine.Ctx) {
 		bound = 3
 	}
 
-	for _, two := range []bool{false, true} {
+	for _, mode := range []struct{ two, failing bool }{{false, false}, {true, false}, {false, true}} {
+		two := mode.two
+
 		for b := 0; b <= bound; b++ {
-			sc := &scen{twoSigns: two, outc: map[string]int64{}, hist: map[string]bool{}}
+			sc := &scen{twoSigns: two, failingReload: mode.failing, outc: map[string]int64{}, hist: map[string]bool{}}
 			ex := &sched.Explorer{Scenario: sc, Bound: b, Stop: c.Expired, Shard: c.Shard, NShards: c.NShards}
 			ex.Explore()
 
-			c.Count(fmt.Sprintf("schedules_twoSigns=%v_bound_%d", two, b), ex.Stats.Executions)
+			c.Count(fmt.Sprintf("schedules_twoSigns=%v_failingReload=%v_bound_%d", two, mode.failing, b), ex.Stats.Executions)
 
 			if b == bound || !ex.Stats.Complete {
 				c.Traces(ex.Stats.Executions)
@@ -386,8 +416,8 @@ func runSchedules(c *engine.Ctx) {
 				c.States(int64(len(sc.hist)))
 
 				for k, v := range sc.outc {
-					c.OutcomeN(fmt.Sprintf("schedules(two=%v): %s", two, k), v)
-					c.Nontrivial(fmt.Sprintf("sched|%v|%s", two, k))
+					c.OutcomeN(fmt.Sprintf("schedules(two=%v,failing-reload=%v): %s", two, mode.failing, k), v)
+					c.Nontrivial(fmt.Sprintf("sched|%v|%v|%s", two, mode.failing, k))
 				}
 			}
 
@@ -400,7 +430,7 @@ func runSchedules(c *engine.Ctx) {
 
 				seen[f.Sig] = true
 				c.Violation(f.Sig, fmt.Sprintf("preemption bound %d: %s", b, f.Summary),
-					&replayCase{Part: "schedules", TwoSigns: two, Choices: f.Choices, Schedule: f.Schedule})
+					&replayCase{Part: "schedules", TwoSigns: two, FailingReload: mode.failing, Choices: f.Choices, Schedule: f.Schedule})
 			}
 
 			if len(ex.Failures) > 0 || !ex.Stats.Complete {
@@ -507,7 +537,7 @@ func replay(c *engine.Ctx, raw json.RawMessage) {
 	}()
 
 	if rc.Part == "schedules" {
-		sc := &scen{twoSigns: rc.TwoSigns, outc: map[string]int64{}, hist: map[string]bool{}}
+		sc := &scen{twoSigns: rc.TwoSigns, failingReload: rc.FailingReload, outc: map[string]int64{}, hist: map[string]bool{}}
 		ex := &sched.Explorer{Scenario: sc}
 		sig, sum, schedule := ex.Replay(rc.Choices)
 		fmt.Printf("replay: schedule=%v\n -> %q %s\n", schedule, sig, sum)
